@@ -37,5 +37,36 @@ Theorem C06_count_nonneg : forall s t, 0 <= count fold121 s t.
 Proof. exact (count_nonneg fold121). Qed.
 
 (* the D3 witness no longer panics in the model of Count's specification *)
+(* ---- totality of the models of all 23 exported functions (corollaries of the refinement
+   theorems): on every byte string, for both package shapes and every configuration, the
+   structure-faithful model returns Ok — no bounds check of a slice expression fails (Panic is
+   a visible result of the model) and no loop exceeds its fuel (OutOfFuel likewise) ---- *)
+From Strcase Require Import Impl2 Impl3 Impl4 Impl5 Impl6 Impl7 Instances Totality.
+
+Theorem C06_total_two_strings : forall p native cutover maxBruteForce maxLen primeRK s t, wf s -> wf t ->
+  total (Compare fold121 (lower_pkg p) p s t) /\ total (EqualFold fold121 (lower_pkg p) p s t) /\
+  total (HasPrefix fold121 (lower_pkg p) p s t) /\ total (TrimPrefix fold121 (lower_pkg p) p s t) /\
+  total (CutPrefix fold121 (lower_pkg p) p s t) /\
+  total (HasSuffix fold121 (lower_pkg p) s t) /\ total (TrimSuffix fold121 (lower_pkg p) s t) /\
+  total (CutSuffix fold121 (lower_pkg p) s t) /\
+  total (Impl6.Index native cutover fold121 (lower_pkg p) fold_map121 fold_map_excl121 upper_lower121 maxBruteForce maxLen primeRK p s t) /\
+  total (Impl6.Contains native cutover fold121 (lower_pkg p) fold_map121 fold_map_excl121 upper_lower121 maxBruteForce maxLen primeRK p s t) /\
+  total (Impl7.LastIndex fold121 (lower_pkg p) fold_map121 upper_lower121 primeRK p s t) /\
+  total (Count (Impl6.Index native cutover fold121 (lower_pkg p) fold_map121 fold_map_excl121 upper_lower121 maxBruteForce maxLen primeRK p) p s t) /\
+  total (Cut (Impl6.Index native cutover fold121 (lower_pkg p) fold_map121 fold_map_excl121 upper_lower121 maxBruteForce maxLen primeRK p) p s t) /\
+  total (Impl7.IndexAny native cutover fold_map121 upper_lower121 s t) /\
+  total (Impl7.ContainsAny native cutover fold_map121 upper_lower121 s t) /\
+  total (Impl7.LastIndexAny native cutover fold_map121 upper_lower121 s t).
+Proof. exact total_ss. Qed.
+Print Assumptions C06_total_two_strings.
+
+Theorem C06_total_string_rune_byte : forall native cutover s r c, wf s -> 0 <= c < 256 ->
+  total (Impl5.IndexRune native cutover fold_map121 upper_lower121 s r) /\
+  total (Impl5.ContainsRune native cutover fold_map121 upper_lower121 s r) /\
+  total (Impl5.IndexByte native cutover s c) /\ total (Impl5.IndexByteASCII s c) /\ total (Impl5.LastIndexByte s c) /\
+  total (Impl7.IndexNonASCII s) /\ total (Impl7.ContainsNonASCII s).
+Proof. exact total_sr. Qed.
+Print Assumptions C06_total_string_rune_byte.
+
 Example C06_example : count fold121 [255; 255] [255; 255] = 1.
 Proof. vm_compute. reflexivity. Qed.
